@@ -44,6 +44,13 @@ fn c17_strict_vs_permissive() {
             _ => {}
         }
     }
+    // a tolerated bad JUMP still ENDS its path: what lies behind it is never executed, so it cannot raise further errors
+    for (name, code) in [("bad JUMP followed by POP on an empty stack", vec![0x60u8, 0x04, 0x56, 0x50, 0x00]),
+                         ("bad JUMP followed by ADD", vec![0x60, 0x01, 0x60, 0x00, 0x55, 0x60, 0x03, 0x56, 0x01, 0x00]),
+                         ("bad JUMP (2^255) followed by SSTORE", { let mut v = vec![0x7f, 0x80]; v.extend([0u8; 31]); v.extend([0x56, 0x55, 0x00]); v }),
+                         ("JUMP into push data followed by SWAP1", vec![0x60, 0x04, 0x56, 0x60, 0x5b, 0x90, 0x00])] {
+        if let Out::Err(e) = analyze(&code, true) { witness("C17", "ctl.permissive_tolerates_bad_jump", format!("{name}: {code:02x?}"), format!("Err {e}"), "Ok: the path ends at the bad jump".into()); }
+    }
     // other execution errors still fail in permissive mode: stack underflow (POP on empty stack)
     for (name, code) in [("stack underflow", vec![0x50u8, 0x00]), ("JUMP on an empty stack", vec![0x56, 0x00]), ("JUMPI with one operand", vec![0x60, 0x04, 0x57, 0x00, 0x5b, 0x00]),
                          ("JUMPI on an empty stack behind a fork", vec![0x36, 0x60, 0x05, 0x57, 0x00, 0x5b, 0x57, 0x00])] {
@@ -104,6 +111,18 @@ fn c17_strict_lists_at_least_what_permissive_lists() {
 fn c17_gas_exhaustion_reported_at_every_limit_below_the_path_cost() {
     use storage_layout_extractor::disassembly::InstructionStream;
     std::panic::set_hook(Box::new(|_| {}));
+    // a forked path is charged for what ran before the fork: prefix 9 + suffix 107 > 110, each side alone is within the limit
+    {
+        let code = vec![0x60u8, 0x00, 0x35, 0x60, 0x07, 0x57, 0x00, 0x5b, 0x60, 0x01, 0x60, 0x00, 0x55, 0x00];
+        for permissive in [false, true] {
+            if let Some(errs) = vm_errors(&code, permissive, 110) {
+                if !errs.iter().any(|e| e.contains("GasLimitExceeded")) {
+                    witness("C17", "ctl.gas_exhaustion_is_an_error_in_both_modes", format!("code={code:02x?} gas_limit=110 permissive={permissive} (forked path costs 9 + 107)"), format!("errors {errs:?}"), "GasLimitExceeded".into());
+                    witness("C03", "limits.fork.inherits_gas", format!("code={code:02x?} gas_limit=110"), format!("errors {errs:?}"), "GasLimitExceeded on the forked path".into());
+                }
+            }
+        }
+    }
     let programs: Vec<Vec<u8>> = vec![
         vec![0x5f, 0x5f],
         vec![0x5f, 0x50, 0x5f, 0x50, 0x00],
